@@ -2,7 +2,7 @@
 # tools/try_patch.sh <patch.diff> <property id>... : apply a change to /repo, run the given checks, undo the change.
 # Prints one line per check: "<id> rc=<exit> <last line of the check>" plus any VIOLATION lines.
 set -u
-P="$1"; shift
+P=$(readlink -f "$1"); shift
 cd /verif
 if ! git -C /repo diff --quiet; then echo "refusing: /repo has local changes"; exit 2; fi
 trap 'git -C /repo checkout -- . ; git -C /repo clean -fdq -- gbn mailbox >/dev/null 2>&1' EXIT INT TERM
